@@ -2,6 +2,7 @@
 mod mt;
 mod run;
 mod unit;
+mod world;
 
 fn main() {
     let (sub, args) = hxlib::util::Args::parse();
